@@ -47,7 +47,7 @@ func (e *Engine) bootstrapUTXO() bool {
 	us := e.U
 	u := e.W.Users[0]
 	t := e.Work
-	n := t.Range(3, 5)
+	n := t.Range(3, 7)
 	var ws []*Wallet
 	var amts []*big.Int
 	for i := 0; i < n; i++ {
@@ -201,6 +201,22 @@ func (e *Engine) genUTXO(kind string, u *User, pick int) *MTx {
 				pool = append(pool, o)
 			}
 		}
+		if kind == "kiconflict" && t.Bool(1, 2) {
+			// prefer an output that is a LATER input of a pending multi-input
+			// spend (its key image is registered last by the pool)
+			var later []*Owned
+			for _, o := range pool {
+				for _, sp := range o.Spends {
+					if sp.Accepted && len(sp.Ins) > 1 && sp.Ins[0] != o {
+						later = append(later, o)
+						break
+					}
+				}
+			}
+			if len(later) > 0 {
+				pool = later
+			}
+		}
 		if len(pool) == 0 && kind != "kiconflict" {
 			pool = cands
 		}
@@ -212,12 +228,11 @@ func (e *Engine) genUTXO(kind string, u *User, pick int) *MTx {
 		ins := []*Owned{in}
 		if kind == "kidup" {
 			ins = []*Owned{in, in}
-		} else if t.Bool(1, 5) {
-			// a second input of the same wallet
+		} else if extra := t.Pick(5, 2, 1); extra > 0 {
+			// one or two more inputs of the same wallet
 			for _, o := range cands {
-				if o != in && o.Wallet == in.Wallet {
+				if o != in && o.Wallet == in.Wallet && len(ins) <= extra {
 					ins = append(ins, o)
-					break
 				}
 			}
 		}
